@@ -161,6 +161,9 @@ def gen_cochain(rng):
     lines.append((out_votes, [n]))
     if rng.random() < 0.3:
         n += 1; lines.append((1, [n, rng.choice(members)]))
+    if rng.random() < 0.25:       # the same election with every ballot line a billion-fold: a national electorate
+        k = rng.choice([10 ** 9, 10 ** 12, 10 ** 9 + 7])
+        lines = [(mu * k, r) for mu, r in lines]
     return _finish(rng, n, s, lines)
 
 def gen_cotie(rng):
